@@ -823,6 +823,8 @@ static size_t copy_chars (UCHAR* from, UCHAR* to, size_t count, interactive_t* i
             case SB:		/* start subnegotiation */
               ip->state = TS_SB;
               ip->sb_pos = 0;
+              /* handlers read fixed offsets (TTYPE: sb_buf+2, NAWS: sb_buf[1..4]) whatever the length */
+              memset (ip->sb_buf, 0, sizeof (ip->sb_buf));
               break;
             default:		/* IAC ???, treat as IAC NOP */
               ip->state = TS_DATA;
